@@ -1892,8 +1892,9 @@ func (c *Client) doSetup(
 	switch protocol {
 	case ProtocolUDP, ProtocolUDPMulticast:
 		if thRes.Protocol == headers.TransportProtocolTCP {
-			// switch transport automatically
-			if c.setuppedTransport == nil && c.Protocol == nil {
+			// switch transport automatically.
+			// this is possible when reading only, since it involves repeating DESCRIBE.
+			if c.setuppedTransport == nil && c.Protocol == nil && c.lastDescribeURL != nil {
 				c.OnTransportSwitch(liberrors.ErrClientSwitchToTCPDueToServer{})
 
 				c.baseURL = baseURL
